@@ -1203,11 +1203,11 @@ class Vector():
 		Vector
 			Sorted vector with same dtype
 		"""
-		# Build key for each element
-		if na_last:
-			key_fn = lambda x: (x is None, x if x is not None else 0)
-		else:
-			key_fn = lambda x: (0 if x is None else 1, x if x is not None else 0)
+		# Build key for each element.  sorted(..., reverse=True) reverses the whole
+		# order, so the None flag is flipped under reverse to keep None last
+		# (or first with na_last=False) in both directions, like Table.sort_by.
+		none_high = (bool(na_last) != bool(reverse))
+		key_fn = lambda x: ((x is None) == none_high, x if x is not None else 0)
 		
 		new_values = tuple(sorted(self._underlying, key=key_fn, reverse=reverse))
 
